@@ -179,4 +179,49 @@ example : ∃ n, CalmReach C08H.exEnv [⟨1, 0⟩, ⟨2, 0⟩] n ∧
     h3 rfl (by decide) rfl
   exact ⟨_, h4, by decide⟩
 
+/-! non-vacuity of `request_is_answered_as_the_table_says`: a fresh instance 1 (reachable, calm, not defunct) handles
+   the Ping numbered 1 that instance 2 sends in the worked cluster of `C02S`; every premise holds, and the datagram
+   it sends back is the Ack numbered 1 -/
+def exPing : Bytes := [0, 2, 0, 0, 0, 0, 0, 1, 0, 0, 0, 1, 0, 1, 0, 1, 0, 0, 0, 0, 0]
+def exFresh : State := State.init ⟨1, 0⟩ .none C08H.exCfg
+
+omit hl hhdr hdist in
+theorem exFresh_calm : CalmInv C08H.exEnv (fun _ => 0) C12S.exIds exFresh := by
+  refine ⟨⟨by unfold IdWire; decide, by decide⟩, ⟨by decide, by decide⟩, ?_, ?_, ?_⟩
+  · intro m hm; simp [exFresh, State.init] at hm
+  · intro e he; simp [exFresh, State.init] at he
+  · intro e he; simp [exFresh, State.init] at he
+
+omit hl hhdr hdist in
+theorem exPing_calm : DataOk C08H.exEnv (CalmM (fun _ => 0) C12S.exIds) (CalmH (fun _ => 0) C12S.exIds) exPing := by
+  intro h rest hdec
+  have hd : C08H.exEnv.codec.decHeader exPing = some (⟨⟨2, 0⟩, 0, ⟨1, 0⟩, .ping 1⟩, [0, 1, 0, 1, 0, 0, 0, 0, 0]) := by decide
+  rw [hd] at hdec
+  simp only [Option.some.injEq, Prod.mk.injEq] at hdec
+  obtain ⟨rfl, rfl⟩ := hdec
+  refine ⟨⟨⟨by unfold IdWire; decide, by decide, by unfold IdWire; decide, by simp [MsgWire]⟩, by decide, by decide, by simp, rfl⟩, ?_⟩
+  intro us tail hp
+  have : parseSection C08H.exEnv ⟨⟨2, 0⟩, 0, ⟨1, 0⟩, .ping 1⟩ [0, 1, 0, 1, 0, 0, 0, 0, 0] = some ([⟨⟨1, 0⟩, 0, .alive⟩], []) := by decide
+  rw [this] at hp
+  simp only [Option.some.injEq, Prod.mk.injEq] at hp
+  obtain ⟨rfl, _⟩ := hp
+  intro u hu
+  simp only [List.mem_singleton] at hu
+  subst hu
+  exact ⟨⟨⟨by unfold IdWire; decide, by decide⟩, by decide⟩, rfl, by decide, rfl⟩
+
+omit hl hhdr hdist in
+set_option maxRecDepth 8000 in
+example : ∃ pre bytes s' eff left,
+    Foca.step C08H.exEnv exFresh (.data exPing) ⟨[.idx 0], [⟨[[0, 2, 0, 0, 0, 0, 0]], []⟩]⟩ = .done s' eff .ok left ∧
+    eff = pre ++ [.send ⟨2, 0⟩ bytes] ∧
+    (C08H.exEnv.codec.decHeader bytes).map (·.1) = some ⟨s'.id, s'.inc, ⟨2, 0⟩, .ack 1⟩ := by
+  have hstep : ∃ s' eff left, Foca.step C08H.exEnv exFresh (.data exPing) ⟨[.idx 0], [⟨[[0, 2, 0, 0, 0, 0, 0]], []⟩]⟩ =
+      .done s' eff .ok left := ⟨_, _, _, rfl⟩
+  obtain ⟨s', eff, left, hs⟩ := hstep
+  obtain ⟨pre, bytes, h1, _, h3⟩ := C12S.request_is_answered_as_the_table_says C08H.exEnv (fun _ => 0) C12S.exIds
+    C07H.bundled_header_laws.1 C12S.exIds_distinct exFresh_calm (Reachable.init ⟨1, 0⟩ .none C08H.exCfg) (by decide)
+    exPing_calm hs ⟨⟨2, 0⟩, 0, ⟨1, 0⟩, .ping 1⟩ [0, 1, 0, 1, 0, 0, 0, 0, 0] (by decide) rfl ⟨2, 0⟩ (.ack 1) rfl
+  exact ⟨pre, bytes, s', eff, left, hs, h1, h3⟩
+
 end Foca.C02S
